@@ -43,6 +43,14 @@ def _cfg(debug, custom):
 
 def solo(kind, n, debug, cache, custom=False):
     key = (kind, n, debug, custom)
+    if key not in cache and kind in FRESH_KINDS and not custom:
+        # kinds whose answer could be coloured by process-wide memos get their reference from a fresh interpreter
+        from vlib import fresh
+        got = fresh.references([(kind, n, 'default', bool(debug))])
+        v = got[(kind, n, 'default', bool(debug))]
+        if v[0] == 'escaped':
+            raise CheckFailure(f'solo request {key} raised {v[1]}')
+        cache[key] = tuple(v)
     if key not in cache:
         app = S.make_app(config=_cfg(debug, custom), private_errors=not custom)
         r = call_app(app, S.make_env(kind, n))
@@ -161,6 +169,7 @@ def _reqs():
     return st.one_of(anyk, same)
 
 
+FRESH_KINDS = ('hdr_types',)
 PAIRS_CUSTOM = [('badjson', 'badjson'), ('badmultipart', 'badjson'), ('oversized', 'oversized'), ('badchunk', 'badjson'), ('badjson', 'badchunk'), ('bigform', 'oversized')]
 WARM1 = [('ok', 'manyheaders'), ('auth', 'manyheaders'), ('urlinfo', 'manyheaders'), ('manyheaders', 'manyheaders'), ('longquery', 'manyheaders')]
 PAIRS2 = [('form_fixed', 'form_fixed'), ('chunked_ok', 'chunked_ok'), ('rex', 'rex'), ('expires', 'expires'), ('qs_reassign', 'qs_reassign')]
